@@ -7,7 +7,7 @@ import cfgs as C
 import fields as F
 import hist as H
 import props.cfgprops as P
-from core import Result, stable
+from core import Result, stable, guard
 
 RULE = ("the C01 history stream with reset / is_value_defined up-weighted, compared step by step with the Lean model (values, default "
         "marks, identities), plus direct oracles on the implementation: a fresh configuration exposes every declared default and reports "
@@ -161,9 +161,13 @@ def env_empty_stream(ctx, res, n):
                                 {"stream": "env-empty", "route": route, "path": list(p), "held": ee.get(tree, p), "document": ee.get(ee.values, p)})
                 elif not cc.is_value_defined(cfg, ".".join(p)):
                     res.violate("C12:loaded-not-defined", "a loaded field is reported as not user-defined", {"stream": "env-empty", "route": route, "path": list(p)})
-            cc.reset_value(cfg, "db.pool.size")
-            if cfg.db.pool.size != 5 or cc.is_value_defined(cfg, "db.pool.size"):
-                res.violate("C12:reset", "reset does not restore the declared default / undefined status", {"stream": "env-empty"})
+            try:
+                cc.reset_value(cfg, "db.pool.size")
+                bad = cfg.db.pool.size != 5 or cc.is_value_defined(cfg, "db.pool.size")
+            except Exception as e:  # noqa
+                bad = "raised %s" % type(e).__name__
+            if bad:
+                res.violate("C12:reset", "reset does not restore the declared default / undefined status", {"stream": "env-empty", "outcome": str(bad)})
 
 
 def ctor_env_stream(ctx, res, n):
@@ -220,8 +224,11 @@ def ctor_env_stream(ctx, res, n):
                 if got != want or type(got) is not type(want):
                     res.violate("C12:env-start-value", "a field bound to a set variable does not start at the variable's validated value", dict(case, variable=text, held=F.enc_val(got)))
                 cfg[path] = values[-1]
-                cc.reset_value(cfg, path)
-                got = cfg[path]
+                try:
+                    cc.reset_value(cfg, path)
+                    got = cfg[path]
+                except Exception as e:  # noqa
+                    got = "<reset raised %s>" % type(e).__name__
                 if got != want or type(got) is not type(want) or cc.is_value_defined(cfg, path):
                     res.violate("C12:env-reset-value", "after a reset a field bound to a set variable is not back at the variable's validated value, not user-defined",
                                 dict(case, variable=text, held=F.enc_val(got)))
@@ -324,11 +331,11 @@ def challenge_default_stream(ctx, res, n):
 def run(ctx, n_quick=250, n_thorough=8000):
     res = Result()
     P.run_stream(ctx, res, "C12", ctx.n(n_quick, n_thorough), oracle, gen_ops=gen_ops)
-    callable_stream(ctx, res, ctx.n(3, 30))
-    env_empty_stream(ctx, res, ctx.n(4, 60))
-    ctor_env_stream(ctx, res, ctx.n(120, 3000))
-    mutable_default_stream(ctx, res, ctx.n(40, 1500))
-    challenge_default_stream(ctx, res, ctx.n(20, 400))
+    guard(res, "C12", callable_stream, ctx, res, ctx.n(3, 30))
+    guard(res, "C12", env_empty_stream, ctx, res, ctx.n(4, 60))
+    guard(res, "C12", ctor_env_stream, ctx, res, ctx.n(120, 3000))
+    guard(res, "C12", mutable_default_stream, ctx, res, ctx.n(40, 1500))
+    guard(res, "C12", challenge_default_stream, ctx, res, ctx.n(20, 400))
     return res
 
 
